@@ -18,6 +18,7 @@ from spacepackets.cfdp.pdu.file_data import FileDataPdu
 from spacepackets.cfdp.pdu.nak import NakPdu
 from spacepackets.cfdp.pdu.prompt import PromptPdu
 from spacepackets.cfdp.pdu.header import AbstractPduBase
+from spacepackets.exceptions import BytesTooShortError
 from spacepackets.version import get_version
 
 GenericPduPacket = Union[AbstractFileDirectiveBase, AbstractPduBase]
@@ -164,6 +165,12 @@ class PduFactory:
 
     @staticmethod
     def pdu_type(data: bytes) -> PduType:
+        """Retrieve the PDU type from a raw bytestream.
+
+        :raises BytesTooShortError: Passed data is empty.
+        """
+        if len(data) < 1:
+            raise BytesTooShortError(1, len(data))
         return PduType((data[0] >> 4) & 0x01)
 
     @staticmethod
